@@ -175,6 +175,7 @@ type evWorld struct {
 	prevObjs  map[*gocql.HostInfo]bool // objects of the ring before the last evrefresh
 	lastRows  []evRow                  // rows of the last evrefresh
 	tokenAw   bool                     // the policy is token aware (its own host list is checked too)
+	holdPrior gocql.VerifEvSnap        // E2E tier, e2ehold: the snapshot between the two refreshes
 }
 
 // ---- the property's oracles, evaluated on the real snapshot
@@ -580,11 +581,18 @@ func evExec(w *world, f []string) (res string, ok bool) {
 		return "", false
 	}
 	if f[0] == "reset" {
+		w.deb.close()
+		w.deb = nil
+		if len(f) == 2 && f[1] == "evdb" {
+			return debExec(w, f), true
+		}
 		if len(f) < 2 || (f[1] != "ev" && f[1] != "evc" && f[1] != "e2e") {
 			w.ev.close()
 			w.ev = nil
 			return "", false
 		}
+	} else if strings.HasPrefix(f[0], "evdb") {
+		return debExec(w, f), true
 	} else if !strings.HasPrefix(f[0], "ev") && !strings.HasPrefix(f[0], "e2e") {
 		return "", false
 	}
